@@ -48,7 +48,7 @@ RULES = [
 
 EXTRA = [
     {"key": "roughenough::server::Server::new/unwrap(parse('127.0.0.1:0'))", "property": "C15", "reason": "`fuzzing` feature only: parsing the constant literal \"127.0.0.1:0\" as a socket address cannot fail", "requires": []},
-    {"key": "roughenough::server::Server::new/unwrap(bind())", "property": "C15", "reason": "`fuzzing` feature only: helper socket bound to an ephemeral port (port 0) fails only on OS resource exhaustion", "requires": []},
+    {"key": "roughenough::server::Server::new/unwrap(bind(parse()))", "property": "C15", "reason": "`fuzzing` feature only: helper socket bound to an ephemeral port (port 0) fails only on OS resource exhaustion", "requires": []},
 ]
 
 
